@@ -9,6 +9,10 @@ harness/suites/jsgram/tree.go  transcribes the tree (every node type of js/ast.g
 Inputs: every string literal of the repository's js tests, programs of the jsgram (JsGrammar.tla), scope (ScopeSem.tla) and printer (PrinterGen.tla)
 generators, and seeded token-level mutations of all of them (token deleted / duplicated / swapped, line break inserted, parentheses removed / added);
 whatever js.Parse accepts is judged.
+
+Verdicts follow the letter of C03: a rejected tree of a DERIVABLE input (un-mutated program of a generator specification) is a violation; a rejected tree of
+any other input (test literal, mutation - nothing says it was derivable, and the statement is silent about ill-formed inputs outside its three listed kinds)
+is reported with ck.beyond as a NOTE, same signature, exit code unaffected.
 """
 import concurrent.futures
 import glob
@@ -75,6 +79,9 @@ def sig_of(raw, names, trace=(), i=-1):
             return "jstree/yield/%s/line-terminator-before/%s" % (kind, inp)
         tree = "<end>" if item == 0 else tok_class(names, item // 16)
         k0 = kind.split(">")[0]
+        if k0 == "ps" and inp in MODIFIERS and parent_kind(trace, i) in CLASS_ELEMENT | PROPERTY:
+            # `async <line break> async(){}`: the kept member's name matched the modifier-like name that was dropped, the mismatch shows at its parameter list
+            k0 = parent_kind(trace, i)
         fam = "class-element" if k0 in CLASS_ELEMENT else "property" if k0 in PROPERTY else kind
         if fam in ("class-element", "property") and inp in MODIFIERS:
             # the input has a modifier (async, *, get, set, static) where the tree goes on with something else: the member was kept without it
@@ -137,8 +144,12 @@ def what_of(sig, src, ev, expl):
 
 
 def judge(ck, fails, names_of):
+    """Property C03 speaks about programs DERIVED from the grammar (and about three listed kinds of ill-formed ones, which the generator step makes itself).
+    A rejected tree of a "derivable" input - an un-mutated program that JsGrammar / ScopeSem (verdict accepted) / PrinterGen derives - is a violation of C03.
+    A rejected tree of any other input (a test literal, a seeded mutation): js.Parse accepted something and the tree is off, but nothing says the input was
+    derivable; the statement is silent about it: reported as a beyond-property NOTE (ck.beyond), same signature, never a violation."""
     fails.sort(key=lambda f: (len(f["trace"][0].get("src") or []), f["t"]))
-    by_sig = {}
+    groups = {}                      # (signature, derivable?) -> rejected traces, shortest input first
     for f in fails:
         raw = f.get("sig", "")
         o = f["trace"][0]
@@ -147,20 +158,27 @@ def judge(ck, fails, names_of):
         names = names_of.get(f["t"])
         if names is None:
             ck.fatal("no token texts recorded for trace %s" % f["t"])
-        by_sig.setdefault(sig_of(raw, names, f["trace"], f["i"]), []).append(f)
-    sigs = list(by_sig)
-    back = reproduce(ck, [by_sig[s][0]["trace"][0]["src"] for s in sigs])      # the shortest input of every distinct signature
-    for sig, again in zip(sigs, back):
-        f = by_sig[sig][0]
+        groups.setdefault((sig_of(raw, names, f["trace"], f["i"]), bool(o.get("der"))), []).append(f)
+    keys = sorted(groups, key=lambda k: (not k[1], k[0]))
+    back = reproduce(ck, [groups[k][0]["trace"][0]["src"] for k in keys])      # the shortest input of every distinct (signature, class)
+    for (sig, der), again in zip(keys, back):
+        f = groups[(sig, der)][0]
         o = f["trace"][0]
         if again is None or again != (f["sig"], sig):
             ck.fatal("rejected tree trace did not reproduce: %s (%s) on %s" % (sig, again, json.dumps(text(o["src"]))))
         ev = next((x for x in f["trace"] if x["i"] == f["i"]), {})
-        ck.violation(sig, what_of(sig, o["src"], ev, explain(ck, o["src"])),
-                     {"suite": "jstree", "origin": o.get("origin"), "src": o["src"], "text": text(o["src"]), "raw": f["sig"], "rejected_event_index": f["i"],
-                      "how": "bin/check C03 --replay <this file> parses 'src' again, transcribes the returned tree and validates the trace with spec/js/JsTreeTrace.tla"})
-        for _ in by_sig[sig][1:]:
-            ck.violation(sig, "", {})
+        what = what_of(sig, o["src"], ev, explain(ck, o["src"]))
+        obj = {"suite": "jstree", "origin": o.get("origin"), "derivable": der, "src": o["src"], "text": text(o["src"]), "raw": f["sig"], "rejected_event_index": f["i"],
+               "how": "bin/check C03 --replay <this file> parses 'src' again, transcribes the returned tree and validates the trace with spec/js/JsTreeTrace.tla"}
+        if der:
+            ck.violation(sig, "input derived by the %s generator: %s" % (o.get("origin"), what), obj)
+            for _ in groups[(sig, der)][1:]:
+                ck.violation(sig, "", {})
+        else:
+            ck.beyond(sig, "input not known to be derivable (%s): %s" % (o.get("origin"), what.split("\n")[0]), obj)
+            for _ in groups[(sig, der)][1:]:
+                ck.beyond(sig, "", {})
+    return sum(len(v) for k, v in groups.items() if k[1]), sum(len(v) for k, v in groups.items() if not k[1])
 
 
 def selftest(ck):
@@ -254,6 +272,7 @@ def run(ck, thorough):
     if not s.get("accepted") or s.get("harvested", 0) < 500:
         ck.fatal("tree check: too few inputs (%s)" % {k: s.get(k) for k in ("harvested", "base", "accepted")})
     ck.log("tree check: %d inputs tried, %d accepted by js.Parse -> %d node events (%s)" % (s["tried"], s["accepted"], s["events"], s.get("by_origin")))
+    rejected = (0, 0)
     fails = ck.validate("js", "JsTreeTrace", "JsTreeTrace.cfg", trace, shards=min(6, max(1, s["events"] // 60000 + 1)), timeout=3000)
     if fails:
         want = {f["t"] for f in fails}
@@ -262,7 +281,7 @@ def run(ck, thorough):
             m = re.search(r'"t":(\d+)\}$', line.strip())
             if m and int(m.group(1)) in want:
                 names_of[int(m.group(1))] = json.loads(line)["names"]
-        judge(ck, fails, names_of)
+        rejected = judge(ck, fails, names_of)
     for p in (trace, dic):
         os.remove(p)
     # vacuity (after judging: a parser that no longer produces some node kind at all shows as violations above, not as a failure of the machinery)
@@ -278,13 +297,18 @@ def run(ck, thorough):
     ck.cov["tree_check"] = {"inputs_tried": s["tried"], "accepted": s["accepted"], "rejected_by_parse": s["rejected_by_parse"], "node_events": s["nodes"],
                             "by_origin": s.get("by_origin"), "accepted_mutations": s.get("accepted_mutations"), "node_kinds_seen": len(s.get("kinds") or {}),
                             "ast_node_types_handled": s.get("node_types"), "skipped_two_ambiguous_slashes": s.get("skipped_two_ambiguous_slashes"),
-                            "lexer_alone_fails": s.get("lexer_alone_fails"), "rejected_traces": len(fails)}
+                            "lexer_alone_fails": s.get("lexer_alone_fails"), "accepted_derivable": s.get("accepted_derivable"), "rejected_traces": len(fails),
+                            "rejected_traces_of_derivable_inputs": rejected[0], "rejected_traces_of_other_inputs": rejected[1]}
     ck.cov["rule"] += (" Tree check (code -> spec): every input js.Parse accepts among the repository's js test literals, a seeded sample of the generated programs of "
                        "JsGrammar / ScopeSem / PrinterGen and seeded single token mutations of all of them; per node of the returned tree one event judged by JsTreeTrace.tla.")
     ck.assumptions += [
         "tree check: where js.Parse's tree does not record a token (';' possibly inserted automatically, braces of a loop body, trailing commas, `a => b` vs "
         "`a => {return b}`, `new a` vs `new a()`, `{a}` vs `{a: a}`, quotes of a property name) the terminal is optional / a group present or absent as a whole; "
         "an input with two or more '/' that only the syntactic grammar can read as division or regular expression is not judged",
+        "tree check, verdicts: property C03 speaks about programs derived from the grammar and about three listed kinds of ill-formed programs; a rejected "
+        "tree is a VIOLATION only when the input is an un-mutated program that a generator specification derives (JsGrammar accept case, ScopeSem program with "
+        "verdict accepted, PrinterGen program); for every other accepted input (test literal, seeded mutation) the statement is silent and a rejected tree is a "
+        "beyond-property NOTE with the same signature",
         "tree check: not demanded (ECMA-262 early errors outside the statement's list that js.Parse knowingly does not enforce): labels of break/continue, duplicate "
         "labels / default clauses, declarations as body of a label, ASI legality between statements, non-simple assignment targets other than optional chains",
     ]
